@@ -56,6 +56,10 @@ KNOWN = [
     ("C13", "abort-memory-exhaustion-in-tera-range",
      "--output-template '{{ range(end=5, step_by=0) }}' never ends and '{% for i in range(end=10000000000) %}' materialises the whole range: Tera's built-in range "
      "allocates until the process is killed (observed as an allocation-failure abort under the harness's 8 GiB address-space ceiling)"),
+    ("C02", "distance-follows-git-revlist-under-clock-skew",
+     "distance is taken from `git rev-list --count <tag>..HEAD`; git's revision walk is a committer-date heuristic and over-counts when an ancestor of the "
+     "tagged commit carries a later committer date than its descendants (e.g. root stamped 2023, its descendants 2016-2022: distance 4 reported, 3 commits "
+     "are reachable from HEAD and not from the tag; native git gives the same 4). Exact counting needs two unlimited walks - a cost/design decision, not a small patch"),
     ("C02", "nested-annotated-tag-not-seen",
      "a version tag that is an annotated tag of another annotated tag (`git tag -a -m inner inner HEAD; git tag -a -m outer v3.0.0 inner`) is not found: "
      "`git tag --points-at <commit>` peels one level only, `git describe --tags` finds it; zerv answers exactly as if the tag did not exist "
